@@ -1006,6 +1006,26 @@ MUTANTS = [
     dict(id="C09.e-staging-flush-excludes-the-committed-epoch", prop="C09", file=ST + "key_of_set_map/cache.rs",
          old="                    if peek.epoch <= epoch {", new="                    if peek.epoch < epoch {",
          expect="C09.e/key-of-set/epochs"),
+    dict(id="C01.o-firewall-repairers-skip-their-own-firewalls", prop="C01", file="crates/qbice/src/engine/computation_graph.rs",
+         old="                CallerKind::User | CallerKind::RepairFirewall\n            ) && slow_path == SlowPath::Repair",
+         new="                CallerKind::User\n            ) && slow_path == SlowPath::Repair",
+         expect="C01.o/query_for/firewalls-repaired-first"),
+    dict(id="C01.p-dirtied-set-not-cleared-between-sessions", prop="C01", file=CG + "input_session.rs",
+         old="        engine.clear_dirtied_queries();\n", new="",
+         expect="C01.p/commit_internal/dedupe-set-cleared-before-propagation"),
+    dict(id="C05.b-hit-does-not-defuse-the-registration", prop="C05", file="crates/qbice/src/engine/computation_graph.rs",
+         old="""                    if let Some(undo_register) = undo_register {
+                        undo_register.defuse();
+                    }
+
+                    break QueryResult { return_value: value, status };""",
+         new="""                    drop(undo_register);
+
+                    break QueryResult { return_value: value, status };""",
+         expect="C05.b/UndoRegisterCallee/defuse-sites"),
+    dict(id="C03.a-fresh-inputs-enqueued", prop="C03", file=CG + "input_session.rs",
+         old="            if set_input_result == SetInputResult::Updated {", new="            if set_input_result != SetInputResult::Unchanged {", nth=0,
+         expect="C03.a/InputSession::set_input/enqueue-only-if-updated"),
     # ------------------------------------------------------------------ C09.f (D5)
     dict(id="C09.f-D5-fold-heap-in-arbitrary-order", prop="C09", file=ST + "key_of_set_map/cache.rs",
          old="""        let mut ordered = log.iter().collect::<Vec<_>>();
